@@ -271,7 +271,8 @@ mut("C07", "relation-chains", ("internal/parser/cedar_unmarshal.go", '''	p.advan
 	return operator(lhs, rhs), nil'''))
 mut("C07", "method-as-function", ("internal/parser/cedar_unmarshal.go", '''			if i.IsMethod {
 				return ast.Node{}, p.errorf("`%v` is a method, not a function", prefix)
-XX, ("internal/parser/cedar_unmarshal.go", '''		if known.Contains(k) {
+			}''', '''			_ = i'''))
+mut("C07", "duplicate-record-key-last-wins", ("internal/parser/cedar_unmarshal.go", '''		if known.Contains(k) {
 			return res, p.errorf("duplicate key: %v", k)
 		}''', ''''''))
 mut("C07", "and-operands-swapped-on-third", ("internal/parser/cedar_unmarshal.go", '''	for p.peek().Text == "&&" {
